@@ -40,12 +40,45 @@ def reset_calls(f):
     return [n for n in f.calls() if (f.callee_key(n) or '') == 'ScopedRemover::reset']
 
 
+def for_each_walks(f, listroot_pred):
+    """std::for_each(L.begin(), L.end(), callable) in f whose callable (lambda or functor) calls the target's remove with its own
+    parameter's fields, for a list L satisfying listroot_pred: [(for_each call node, path of L)]."""
+    out = []
+    for n in f.calls():
+        if (f.callee_key(n) or '') != 'std::for_each':
+            continue
+        a = f.call_args(n)
+        if len(a) != 3:
+            continue
+        ends = []
+        for want, x in zip((('begin', 'cbegin'), ('end', 'cend')), a[:2]):
+            v = f.value_source(x)
+            while f.is_construct(v) and len(f.nodes[v].get('args', [])) == 1:
+                v = f.value_source(f.nodes[v]['args'][0])
+            if f.is_call(v) and (f.callee(v) or {}).get('name') in want and f.call_obj(v):
+                ends.append(path(f, f.call_obj(v), resolve_refs=False))
+        if len(ends) != 2 or ends[0] != ends[1] or not listroot_pred(ends[0]):
+            continue
+        g = f.functor_body(a[2])
+        if g is None or len(g.params) != 1:
+            continue
+        rem = [m for m in g.calls() if (g.callee(m) or {}).get('name') in ('removeListener', 'remove') and g.call_obj(m)
+               and last_field(path(g, g.call_obj(m))) in TARGET_FIELDS and path(g, g.call_obj(m))[0] == 'this']
+        if len(rem) != 1 or not g.pos_postdominates(g.pos(rem[0]), (g.entry, 0)):
+            continue
+        roots = {root_var_id(argpath(g, x)) for x in g.call_args(rem[0])}
+        if roots == {g.params[0]['id']}:
+            out.append((n, ends[0]))
+    return out
+
+
 def walk_over(f, listroot_pred):
     """Loops in f that call the target's remove for the elements of a list satisfying listroot_pred(path of the range):
     returns [(remove call node, range path)]."""
     out = []
     removes = [n for n in f.calls() if (f.callee(n) or {}).get('name') in ('removeListener', 'remove') and f.call_obj(n)
                and last_field(path(f, f.call_obj(n))) in TARGET_FIELDS and path(f, f.call_obj(n))[0] == 'this']
+    out += for_each_walks(f, listroot_pred)
     for n in removes:
         if not f.block_reaches(f.pos(n)[0], f.pos(n)[0]):
             continue
@@ -288,9 +321,19 @@ def check_reset(ctx, tu, info, f):
     removes = [n for n in f.calls() if (f.callee(n) or {}).get('name') in ('removeListener', 'remove') and f.call_obj(n)
                and last_field(path(f, f.call_obj(n))) in TARGET_FIELDS]
     clears = [w for w in info.writes(f) if w['path'] == ('this', '.itemList') and w['how'] == 'call:clear']
+    few = for_each_walks(f, lambda rp: rp == ('this', '.itemList'))
     ok_loop = len(removes) == 1 and f.block_reaches(f.pos(removes[0])[0], f.pos(removes[0])[0])
     detail = ''
-    if ok_loop:
+    if not removes and len(few) == 1:
+        # the walk written as std::for_each over this.itemList: the algorithm call stands for the loop
+        removes = [few[0][0]]
+        ok_loop = True
+        detail = 'std::for_each over itemList'
+        ctx.ob('C15.P2', f, 'reset() removes every recorded item from the target (walk over itemList)', ok_loop, detail=detail)
+        ok_clear = len(clears) == 1 and f.pos_reaches(f.pos(removes[0]), clears[0]['pos']) and not f.pos_reaches(clears[0]['pos'], f.pos(removes[0])) \
+            and f.pos_postdominates(clears[0]['pos'], (f.entry, 0))
+        ctx.ob('C15.P2', f, 'the record is cleared on every path, after the walk', ok_clear)
+    elif ok_loop:
         n = removes[0]
         # the loop runs over this.itemList (range-for or the equivalent iterator loop) and the arguments derive from the loop element
         ok_loop = bool(direct) and any(x[0] == n for x in direct)
@@ -298,10 +341,11 @@ def check_reset(ctx, tu, info, f):
         roots = {argpath(f, a)[0] for a in args}
         ok_loop = ok_loop and len(roots) == 1 and list(roots)[0].startswith('v:')
         detail = 'loop over itemList: %s, args from %s' % (bool(direct), sorted(roots))
-    ctx.ob('C15.P2', f, 'reset() removes every recorded item from the target (walk over itemList)', ok_loop, detail=detail)
-    ok_clear = len(clears) == 1 and ok_loop and not f.block_reaches(clears[0]['pos'][0], f.pos(removes[0])[0]) and \
-        f.pos_postdominates(clears[0]['pos'], (f.entry, 0))
-    ctx.ob('C15.P2', f, 'the record is cleared on every path, after the walk', ok_clear)
+    if not (len(few) == 1 and removes == [few[0][0]]):
+        ctx.ob('C15.P2', f, 'reset() removes every recorded item from the target (walk over itemList)', ok_loop, detail=detail)
+        ok_clear = len(clears) == 1 and ok_loop and not f.block_reaches(clears[0]['pos'][0], f.pos(removes[0])[0]) and \
+            f.pos_postdominates(clears[0]['pos'], (f.entry, 0))
+        ctx.ob('C15.P2', f, 'the record is cleared on every path, after the walk', ok_clear)
     # the only guard on the walk is "target is set"
     if removes:
         guards = []
